@@ -291,3 +291,48 @@ func factsPools() {
 	sort.Strings(sites)
 	defStrList("syncPoolSites", sites)
 }
+
+// factsStatusCallback: main.go hands the upstream package a callback that the health checker calls, from its own
+// single goroutine, between the check of one server and the next.  What the callback does synchronously therefore
+// delays (or, if it blocks, stops) every further health check of that upstream.  Listed: the calls it makes
+// synchronously (logging left out) and the ones it hands to a goroutine.
+func factsStatusCallback() {
+	section("main.go: the upstream status callback")
+	var syncCalls, goCalls []string
+	found := false
+	if f := parse("main.go"); f != nil {
+		ast.Inspect(f, func(x ast.Node) bool {
+			ce, ok := x.(*ast.CallExpr)
+			if !ok || nsrc(ce.Fun) != "upstream.ResetWithOnStats" || len(ce.Args) < 2 {
+				return true
+			}
+			fl, ok := ce.Args[1].(*ast.FuncLit)
+			if !ok {
+				syncCalls = append(syncCalls, "callback is not a function literal: "+nsrc(ce.Args[1]))
+				found = true
+				return false
+			}
+			found = true
+			ast.Inspect(fl.Body, func(y ast.Node) bool {
+				switch s := y.(type) {
+				case *ast.GoStmt:
+					goCalls = append(goCalls, nsrc(s.Call.Fun))
+					return false
+				case *ast.CallExpr:
+					n := nsrc(s.Fun)
+					if strings.HasPrefix(n, "log.Default") || strings.HasPrefix(n, "zap.") || n == "fmt.Sprintf" {
+						return true
+					}
+					syncCalls = append(syncCalls, n)
+				}
+				return true
+			})
+			return false
+		})
+	}
+	if !found {
+		syncCalls = append(syncCalls, "missing")
+	}
+	defStrList("statusCallbackSyncCalls", syncCalls)
+	defStrList("statusCallbackGoCalls", goCalls)
+}
